@@ -151,8 +151,29 @@ def sym_int(x=0, base=None):
             if b == 10 and isinstance(val, p.SymInt) and (len(digs) == 1 or not (digs[0] == 0)):
                 val.digits = (False, digs)      # canonical numeral: str() gives the digits back
             return val
-    s = x.conc()  # finite concretisation (Unsupported beyond 256 feasible values per char)
+    # not a plain digit string: every symbolic character is either one of the ASCII characters int() can
+    # accept (digits / letters / sign / underscore / ASCII white space: enumerated) or any other character,
+    # for which int() raises ValueError whatever it is (non-ASCII digits and spaces are assumed away)
+    chars = []
+    other = False
+    for c in els:
+        if isinstance(c, str):
+            chars.append(c)
+            continue
+        rel = z3.Or([c.t == ord(ch) for ch in _INT_ASCII])
+        if e.decide(rel):
+            chars.append(chr(e.concretise(c.t, limit=len(_INT_ASCII) + 1)))
+        else:
+            e.assume(z3.Or(c.t < 128, z3.And(c.t >= 0xE000, c.t <= 0xF8FF)))
+            other = True
+            chars.append(c)
+    if other:
+        raise builtins.ValueError(p.SymStr(list("invalid literal for int() with base %d: '" % b) + chars + ["'"]))
+    s = "".join(chars)
     return builtins.int(s) if base is None else builtins.int(s, base)
+
+
+_INT_ASCII = "0123456789abcdefghijklmnopqrstuvwxyzABCDEFGHIJKLMNOPQRSTUVWXYZ+-_ \t\n\r\x0b\x0c"
 
 
 def sym_float(x=0.0):
@@ -454,6 +475,27 @@ class _Math:
         if any_sym(a, b):
             return _math.pow(builtins.float(a), builtins.float(b))
         return _math.pow(a, b)
+
+    @staticmethod
+    def isfinite(x):
+        p = px()
+        if is_sym(x) and isinstance(x, (p.SymInt, p.SymFloat, p.SymBool)):
+            return True            # symbolic numbers are finite by construction (ints, integral decimals)
+        return _math.isfinite(x)
+
+    @staticmethod
+    def isnan(x):
+        p = px()
+        if is_sym(x) and isinstance(x, (p.SymInt, p.SymFloat, p.SymBool)):
+            return False
+        return _math.isnan(x)
+
+    @staticmethod
+    def isinf(x):
+        p = px()
+        if is_sym(x) and isinstance(x, (p.SymInt, p.SymFloat, p.SymBool)):
+            return False
+        return _math.isinf(x)
 
     @staticmethod
     def fabs(a):
